@@ -151,6 +151,23 @@ func c11Command(e *core.Env) {
 			e.Violation("C11:command:"+strings.TrimPrefix(key, "C02:")+":sparse", detail, cs, func() bool { k, _, _ := c02One(drv, cs.Body, cs.Cfg); return k == key })
 		}
 	}
+	// a journal whose last directives are not transactions (a balance assertion, an open and
+	// a close after the last booking): the window ends with the last transaction or price
+	trailing := append(append([]jr.Dir(nil), body[:10]...),
+		jr.A(dates[11], jr.Bal{Acc: "Assets:Bank:Checking", Qty: "1023", Com: "CHF"}),
+		jr.O(dates[12], "Assets:Late"), jr.C(dates[14], "Assets:Late"))
+	for i, cfg := range cfgs {
+		if i%2 != 1 || !e.Take() {
+			continue
+		}
+		key, detail, _ := c02One(drv, trailing, cfg)
+		e.Count("evaluations")
+		e.Count("command_runs")
+		if key != "" {
+			cs := balCase{Body: trailing, Cfg: cfg}
+			e.Violation("C11:command:"+strings.TrimPrefix(key, "C02:")+":trailing", detail, cs, func() bool { k, _, _ := c02One(drv, cs.Body, cs.Cfg); return k == key })
+		}
+	}
 	// the same on a machine whose local time zone is east / west of UTC (journal dates and
 	// flag dates are calendar days; every 4th configuration)
 	saved := time.Local
